@@ -3,7 +3,8 @@
    verdict of ResponseFilter.Validate), ResponseFilter.Filter, resource.Value.Get, Collection.List or
    the seed event of Value.Pull, together with what came back.  Non-mutation of the message read
    and of the mask is checked by the harness on deep copies (Directs). *)
-From SC Require Import Base.Prelude Msg.Msg Msg.Schema Msg.Path Msg.FmUtils Masks.Get Gen.Schema.
+From SC Require Import Base.Prelude Msg.Msg Msg.Schema Msg.Path Msg.FmUtils Msg.Tagged Masks.Get Masks.Aliasing
+  Gen.Schema.
 
 Inductive c06case :=
 | KRead (op : Z)             (* 0 FilterClone 1 Filter 2 Value.Get 3 Collection.List 4 Value.Pull seed *)
@@ -13,13 +14,24 @@ Inductive c06case :=
                                 by construction, k > 0 = one path corrupted in way k (PathKind) *)
         (v : value)          (* the message read *)
         (code : Z)           (* gRPC code of Validate, -1 = not observed (ops other than 0) *)
-        (obs : outcome).     (* what the read returned, or Panic *)
+        (obs : outcome)      (* what the read returned, or Panic *)
+| KAlias (ty : string) (m : mask) (v : value)
+         (shared : Z)        (* message structs (pointers) of the result of FilterClone that are structs of the
+                                message passed in *)
+         (same_root : bool). (* the result IS the message passed in *)
 
 Definition agrees (c : c06case) : bool :=
   match c with
   | KRead op ty m corrupt v code obs =>
       outcome_eqb obs (filter_clone the_schema ty m v)
       && ((code =? -1) || (code =? validate the_schema ty m))
+  | KAlias ty m v shared same_root =>
+      (* the ownership-aware model (Masks/Aliasing.v): nil mask: the very message; otherwise all new *)
+      let t := graph_of v in
+      match filter_clone_t the_schema ty m (count t) t with
+      | TOk r => (shared =? shared_nodes r t) && Bool.eqb same_root (root_id r =? root_id t)
+      | TPanic => false
+      end
   end.
 
 (* masks the projection clause is stated for: no empty segment (every path string splits into at
@@ -40,12 +52,17 @@ Definition C06_ok (c : c06case) : bool :=
           ((code =? -1) || (code =? (if corrupt =? 0 then code_ok else code_invalid_argument)))
           && (if mask_segs_ok m then value_eqb r (project_mask m v) else true)
       end
+  | KAlias _ _ _ _ _ =>
+      (* sharing is not a violation by itself (mutation of the message read is: Directs read-mutated);
+         the observation is there to tie Masks/Aliasing.v to the code: [agrees] *)
+      true
   end.
 
 (* hypotheses of the theorems: the message read is a tree of its type *)
 Definition C06_guard (c : c06case) : bool :=
   match c with
   | KRead _ ty _ _ v _ _ => conforms the_schema ty v
+  | KAlias ty _ v _ _ => conforms the_schema ty v
   end.
 
 Definition judge (c : c06case) : Z :=
